@@ -113,6 +113,9 @@ def extra_programs():
             n += 1
             out.append("import enum, abc\ndef xr%d(c):\n    if c:\n        return %s\n    return %s\n" % (n, c1, c2))
             out.append("import enum, abc\ndef xp%d(a):\n    pass\ndef xq%d():\n    xp%d(%s)\n    xp%d(%s)\n" % (n, n, n, c1, n, c2))
+    # loops at module and class level (no function scope)
+    out += ["XW0 = 0\nwhile True:\n    XW0 += 1\n    break\n", "class XWC:\n    while 1:\n        break\n    a = 1\n", "for XW1 in (1, 2):\n    while XW1:\n        break\nelse:\n    XW2 = 3\n",
+            "class XWD:\n    for i in ():\n        pass\n    else:\n        j = 1\n    try:\n        k = 1\n    finally:\n        pass\n    with open('/dev/null') as fh:\n        pass\n"]
     out += ["XL1 = [1]\nXL1.append(XL1)\ndef xs1():\n    return XL1\n", "XD1 = {}\nXD1['k'] = XD1\ndef xs2():\n    return XD1['k']\n",
             "XL2 = [1]\nXL2.append([XL2])\ndef xs3(a=XL2):\n    for y in XL2:\n        print(y, a)\n"]
     return out
